@@ -2828,8 +2828,10 @@ class TLSConnection(TLSRecordLayer):
                     getattr(CertificateCompressionAlgorithm, algo) for algo
                     in settings.certificate_compression_receive
                 ]
-                extensions.append(CompressedCertificateExtension().create(
-                    algos_numbers))
+                if algos_numbers:
+                    extensions.append(
+                        CompressedCertificateExtension().create(
+                            algos_numbers))
 
         certificate_request.create(context=context, sig_algs=valid_sig_algs,
                                    extensions=extensions)
@@ -3249,9 +3251,12 @@ class TLSConnection(TLSRecordLayer):
                         getattr(CertificateCompressionAlgorithm, algo) for algo
                         in settings.certificate_compression_receive
                     ]
-                    cert_req_comp_cert_ext = CompressedCertificateExtension()\
-                        .create(algos_numbers)
-                    extensions.append(cert_req_comp_cert_ext)
+                    # (an empty list is not a valid extension: no support)
+                    if algos_numbers:
+                        cert_req_comp_cert_ext = \
+                            CompressedCertificateExtension()\
+                            .create(algos_numbers)
+                        extensions.append(cert_req_comp_cert_ext)
 
                 certificate_request = CertificateRequest(self.version)
                 certificate_request.create(
@@ -4798,8 +4803,10 @@ class TLSConnection(TLSRecordLayer):
                     getattr(CertificateCompressionAlgorithm, algo) for algo
                     in cr_settings.certificate_compression_receive
                 ]
-                extensions.append(CompressedCertificateExtension().create(
-                    algos_numbers))
+                if algos_numbers:
+                    extensions.append(
+                        CompressedCertificateExtension().create(
+                            algos_numbers))
 
             certificateRequest.create(cert_types,
                                       reqCAs,
